@@ -186,23 +186,41 @@ fn run_gated(tracer: &Tracer, rng: &mut StdRng, scenario: &str, tag: Value) {
     if scenario == "uncommitted_delete_commit" {
         cfg.flush_after = 2; // two documents per segment: a source that loses one of them survives the commit
     }
+    // the sources already have delete files when the merge starts; the merge thread is parked BEFORE it
+    // opens them, while a commit gives the same segment a newer delete file and collects garbage: the
+    // older delete file belongs to the segment metas the merge holds and has to survive
+    let predeleted = scenario == "predeleted_delete_commit";
+    if predeleted {
+        cfg.flush_after = 3;
+    }
     cfg.merge = "none".into();
     tracer.emit(json!({"ev":"reset","cfg":cfg.to_json(),"tag":tag}));
     let mut w = World::new_quiet(tracer, &cfg, true);
     install_sink(tracer, w.regs.clone(), None);
     w.exec(&json!({"op":"new_writer"}));
-    let n0 = if scenario == "uncommitted_delete_commit" { 4 } else { rng.random_range(3..8u64) };
+    let n0 = if scenario == "uncommitted_delete_commit" { 4 } else if predeleted { rng.random_range(6..10u64) } else { rng.random_range(3..8u64) };
     for id in 1..=n0 {
         w.exec(&json!({"op":"add","id":id,"t":pick(rng, &["a","b"]),"v":id as i64}));
     }
     w.exec(&json!({"op":"commit"}));
+    if predeleted {
+        w.exec(&json!({"op":"del","pred":{"k":"id","id":1}}));
+        w.exec(&json!({"op":"del","pred":{"k":"id","id":4}}));
+        w.exec(&json!({"op":"commit"}));
+    }
     let st = Arc::new((Mutex::new(Gate { parked: false, release: false, armed: true }), Condvar::new()));
     let st2 = st.clone();
     // stale_end_merge parks the UPDATER thread inside the end_merge task, right before it replaces
     // meta.json; every other scenario parks the merge thread at its first open_write
     let stale = scenario == "stale_end_merge";
     w.dir.set_gate(Some(Arc::new(move |op: &OpInfo, after: bool| {
-        let here = if stale { op.role == "updater" && op.op == "atomic_write" && op.path == "meta.json" && !after } else { op.role == "merge" && op.op == "open_write" && !after };
+        let here = if stale {
+            op.role == "updater" && op.op == "atomic_write" && op.path == "meta.json" && !after
+        } else if predeleted {
+            op.role == "merge" && op.op == "open_read" && !after
+        } else {
+            op.role == "merge" && op.op == "open_write" && !after
+        };
         if here {
             let (m, cv) = &*st2;
             let mut g = m.lock().unwrap();
@@ -246,7 +264,8 @@ fn run_gated(tracer: &Tracer, rng: &mut StdRng, scenario: &str, tag: Value) {
         w.index.searchable_segment_ids().unwrap_or_default()
     };
     let mut fut = w.writer.as_mut().map(|wr| wr.merge(&ids));
-    tracer.emit(json!({"ev":"merge_started","n":ids.len()}));
+    let canon_sids: Vec<usize> = ids.iter().map(|id| tracer.seg(&id.uuid_string())).collect();
+    tracer.emit(json!({"ev":"merge_started","n":ids.len(),"sids":canon_sids}));
     {
         let (m, cv) = &*st;
         let mut g = m.lock().unwrap();
@@ -334,6 +353,12 @@ fn run_gated(tracer: &Tracer, rng: &mut StdRng, scenario: &str, tag: Value) {
             w.exec(&json!({"op":"add","id":n0 + 1,"t":"c","v":0}));
             w.exec(&json!({"op":"commit"}));
         }
+        "predeleted_delete_commit" => {
+            w.exec(&json!({"op":"del","pred":{"k":"id","id":2}}));
+            w.exec(&json!({"op":"add","id":n0 + 1,"t":"c","v":0}));
+            w.exec(&json!({"op":"commit"}));
+            w.exec(&json!({"op":"gc"}));
+        }
         "uncommitted_delete_commit" => {
             w.exec(&json!({"op":"del","pred":{"k":"id","id":n0 + 1}}));
             w.exec(&json!({"op":"del","pred":{"k":"id","id":n0 + 3}}));
@@ -372,7 +397,7 @@ fn run_gated(tracer: &Tracer, rng: &mut StdRng, scenario: &str, tag: Value) {
         w.exec(&json!({"op":"reload"}));
     }
     w.dir.set_gate(None);
-    tracer.emit(json!({"ev":"schedule","name":if stale { "updater parked inside end_merge before the meta.json replacement; rollback + commit by the new writer in between".to_string() } else { format!("merge thread parked at its first open_write during {scenario}") },"realised":realised}));
+    tracer.emit(json!({"ev":"schedule","name":if stale { "updater parked inside end_merge before the meta.json replacement; rollback + commit by the new writer in between".to_string() } else { format!("merge thread parked at its first {} during {scenario}", if predeleted { "open_read" } else { "open_write" }) },"realised":realised}));
     w.exec(&json!({"op":"observe"}));
     w.exec(&json!({"op":"wait_merges"}));
     tantivy::verif::set_sink(None);
@@ -393,7 +418,7 @@ fn main() {
             }
         }
         "gated" => {
-            let scen = ["delete_commit", "rollback", "delete_all_commit", "two_commits", "fresh_writer_delete", "wait_with_intruder", "stale_end_merge", "delete_commit_fault", "uncommitted_delete_commit", "drop_during_merge"];
+            let scen = ["delete_commit", "rollback", "delete_all_commit", "two_commits", "fresh_writer_delete", "wait_with_intruder", "stale_end_merge", "delete_commit_fault", "uncommitted_delete_commit", "drop_during_merge", "predeleted_delete_commit"];
             let only = a.get("only", "");
             for r in 0..runs {
                 let s = if only.is_empty() { scen[(r as usize) % scen.len()] } else { only.as_str() };
